@@ -6,6 +6,11 @@ ASSUMPTIONS = ['std::random_device replaced by a stub returning solver variables
 def jobs(tier):
     out = [Job('field', 'shamir.cpp', 'h_c10_field', [0], reach=['div', 'div0'], bounds='all 65536 operand pairs (symbolic)'),
            Job('split-args', 'shamir.cpp', 'h_c10_split_args', [0], reach=['refused'], bounds='all (t, n) with t = 0, n = 0 or t > n')]
+    combos = [(2, 0, 1), (2, 1, 1), (2, 2, 1), (3, 0, 0), (3, 1, 0)] + ([(3, 0, 1), (3, 1, 1), (3, 2, 1), (4, 1, 0), (5, 1, 0)] if tier == 'thorough' else [])
+    for t, sid, ordered in combos:
+        for sp in range(t):
+            out.append(Job('combine-spec-t%d-set%d-sym%d%s' % (t, sid, sp, '-ord' if ordered else ''), 'shamir.cpp', 'h_c10_combine_spec', [t, sid, sp, ordered], reach=['interpolated'], timeout=3300,
+                           bounds='%d shares, every %s tuple of distinct indices from set %d, value of share %d symbolic' % (t, 'ordered' if ordered else 'increasing', sid, sp)))
     tn = [(1, 1, 0), (1, 1, 31), (1, 3, 0), (2, 2, 0)] if tier == 'quick' else [(1, 1, 0), (1, 1, 31), (1, 3, 0), (2, 2, 0), (2, 2, 31), (2, 3, 0), (2, 3, 17), (3, 3, 0)]
     for t, n, pos in tn:
         out.append(Job('rt-t%d-n%d-pos%d' % (t, n, pos), 'shamir.cpp', 'h_c10_roundtrip', [t, n, pos], reach=['reconstructed'], timeout=3000,
